@@ -487,7 +487,7 @@ def _ec_sign_case():
         "flip_s": st.integers(0, 1 << 24),
         "other": st.integers(1, 1 << 200),
         "other_curve": st.sampled_from(CURVES),
-        "sp": st.sampled_from([None, None, None, None, "file", "config", "local"]),
+        "sp": st.sampled_from([None, None, None, None, "file", "config", "local", "interactive"]),
         "sp_pw": st.sampled_from([None, "c08 Secret-1", "hesložluťoučký-密码"]),
     })
 
@@ -572,7 +572,11 @@ def run_ec_sign(case, o: Oracle) -> None:
             sp_pw = case.get("sp_pw")
             sk.save(path, password=sp_pw)
             halg = _alg(alg) if alg else None
-            if case["sp"] == "file":
+            if case["sp"] == "interactive":
+                sk.save(path, password=sp_pw or "c08 asked-for")
+                sp = _interactive_provider(path, sp_pw or "c08 asked-for", hash_alg=halg, pss_padding=False)
+                o.label("provider:interactive")
+            elif case["sp"] == "file":
                 sp = PlainFileSP(path, password=sp_pw, hash_alg=halg)
             elif case["sp"] == "local":  # what `nxpcrypto signature create -k key -p password` builds
                 sp = get_signature_provider(local_file_key=path, password=sp_pw, hash_alg=halg, pss_padding=False)
@@ -867,7 +871,7 @@ def _rsa_sign_case():
         "flip_m": st.integers(0, 1 << 24),
         "flip_s": st.integers(0, 1 << 24),
         "other": K.rsa_key_desc(),
-        "sp": st.sampled_from([None, None, "file", "config"]),
+        "sp": st.sampled_from([None, None, "file", "config", "interactive"]),
     })
 
 
@@ -928,7 +932,12 @@ def run_rsa_sign(case, o: Oracle) -> None:
         with o.spsdk("provider", "rsa"):
             path = _scratch("sp-rsa.der")
             sk.save(path, encoding=E["DER"])
-            if case["sp"] == "file":
+            if case["sp"] == "interactive":
+                path = _scratch("sp-rsa-enc.pem")
+                sk.save(path, password="c08 asked-for", encoding=E["PEM"])
+                sp = _interactive_provider(path, "c08 asked-for", hash_alg=_alg(alg) if alg else None, pss_padding=pss)
+                o.label("provider:interactive")
+            elif case["sp"] == "file":
                 sp = PlainFileSP(path, hash_alg=_alg(alg) if alg else None, pss_padding=pss)
             else:  # the configuration-string path used by nxpcrypto / nxpimage
                 sp = get_signature_provider(sp_cfg="type=file;file_path=%s" % path, pss_padding=pss, hash_alg=_alg(alg) if alg else None)
@@ -943,6 +952,21 @@ def run_rsa_sign(case, o: Oracle) -> None:
     if prehashed:
         o.label("prehashed")
     o.nontrivial(pss or prehashed or alg is not None)
+
+
+def _interactive_provider(path: str, password: str, **kw):
+    """The provider `nxpcrypto signature create -k <encrypted key>` builds when no password is given: the user is asked for it."""
+    import contextlib
+    from unittest import mock
+
+    from spsdk.crypto import keys as _keys
+    from spsdk.crypto.signature_provider import get_signature_provider
+
+    with contextlib.ExitStack() as stack:
+        stack.enter_context(mock.patch("getpass.getpass", return_value=password))
+        if hasattr(_keys, "SPSDK_INTERACTIVE_DISABLED"):
+            stack.enter_context(mock.patch.object(_keys, "SPSDK_INTERACTIVE_DISABLED", False))
+        return get_signature_provider(local_file_key=path, **kw)
 
 
 # ------------------------------------------------------------------ nxpcrypto commands
